@@ -51,14 +51,20 @@ def run(scratch, checks, tier='quick', timeout=1800):
     # (a new package id per run) are pruned so that the cache does not grow with every run
     tdir = os.path.join(vpenv.CACHE, 'bounded-target')
     env = vpenv.offline_env({'CARGO_TARGET_DIR': tdir, 'CARGO_INCREMENTAL': '0'})
-    _prune(tdir)
-    b = subprocess.run(['cargo', 'build', '--offline', '-q'], cwd=h, env=env, capture_output=True, text=True, timeout=timeout)
-    if b.returncode != 0:
-        return {'ok': False, 'build_error': (b.stderr or b.stdout)[-1500:], 'results': {}, 'wall_s': time.time() - t0, 'cmd': 'cargo build'}
-    exe = os.path.join(vpenv.CACHE, 'bounded-target', 'debug', 'bounded')
-    # run from a private copy so that a concurrent build cannot swap the binary under us
-    exe2 = os.path.join(scratch, 'bounded-bin')
-    shutil.copy2(exe, exe2)
+    # build and take a private copy of the binary under one lock: the target directory (and so the path of the binary) is shared
+    # between concurrent check runs, and a build for ANOTHER tree finishing between our build and our copy would hand us a harness
+    # linked against that other tree (seen once as an alarm on a behaviour-preserving change while four seed runs shared the cache)
+    import fcntl
+    os.makedirs(tdir, exist_ok=True)
+    with open(os.path.join(vpenv.CACHE, 'bounded-target.lock'), 'w') as lk:
+        fcntl.flock(lk, fcntl.LOCK_EX)
+        _prune(tdir)
+        b = subprocess.run(['cargo', 'build', '--offline', '-q'], cwd=h, env=env, capture_output=True, text=True, timeout=timeout)
+        if b.returncode != 0:
+            return {'ok': False, 'build_error': (b.stderr or b.stdout)[-1500:], 'results': {}, 'wall_s': time.time() - t0, 'cmd': 'cargo build'}
+        exe = os.path.join(vpenv.CACHE, 'bounded-target', 'debug', 'bounded')
+        exe2 = os.path.join(scratch, 'bounded-bin')
+        shutil.copy2(exe, exe2)
     results = {}
     crashed, stderr = False, ''
     per_check_timeout = 240 if tier == 'quick' else 1200
